@@ -49,7 +49,7 @@ def run(ctx):
     # (a) design level: exhaustive model check + negative control
     ctx.mc("Idle", "IdleMC.cfg", workers=8)
     ctx.neg("Idle", "IdleNeg.cfg", expect="I_NeverIdleUnderRPC", workers=4)
-    binary = ctx.go_build("internal/idle")
+    binary = ctx.go_build("internal/idle", only=r"zz_verif_(idle|util)_")
 
     # (b)+(c) every transition of the bounded model forced onto real goroutines
     scopes = [("IdleGen.cfg", dict(rpcs=["r1", "r2"], conns=[], closers=[], calls=1), None),
